@@ -612,6 +612,49 @@ class InHistories(Stage):
         return res
 
 
+class InGdbHistories(Stage):
+    """the same in GDB mode: the histories reach the tool as libwayland closures through the real plugin and extract.py on the
+    gdb stand-in, dispatched from several threads (on a server's or an unclassified connection the plugin names such a message
+    in a warning before it has been resolved - the line shown for it, then and in any later listing, is decorated all the same)"""
+    name = 'in-gdb-histories'
+
+    def examples(self, tier):
+        return 100 if tier == 'quick' else 14 * 800
+
+    def gen(self, d, tier):
+        from .. import histgen
+        prof = dict(reuse=0.6, no_unseen_registry=True, weights=dict(repeat=10, message=44, enum=22, nulls=12, null_strings=8, bind=12, delete=8, sync=4, title=6, server_event=8))
+        return dict(specs=histgen.history(d, nconn=d.int(1, 2), nmsg=d.int(6, 30), tagged=True, profile=prof),
+                    threads=[d.choice([1, 1, 2, 3]) for _ in range(d.int(1, 6))])
+
+    def execute(self, case):
+        from .. import tracker
+        res = Result()
+        res.evals = 0
+        full = Result()
+        full.evals = 0
+        tr = tracker.GdbTracker('', case.get('threads'))
+        try:
+            for spec in case['specs']:
+                try:
+                    msg, rec = tr.apply(spec)
+                except tracker.GdbModeLost as e:
+                    res.bad('gdb-history:message-lost', str(e))
+                    break
+                tracker.check_attribution(tr, msg, rec, full, ':gdb-mode')
+                res.evals += 1
+        finally:
+            tr.close()
+        for b, msg in full.discs:
+            if b.startswith('rendered-line') or b.startswith('crash:'):
+                res.bad('gdb-history:' + b, msg)
+        off = any(t != 1 for t in case.get('threads') or [])
+        res.nontrivial = off and len(case['specs']) >= 6
+        if off: res.label('several-threads')
+        res.sample = dict(lines=[wire.render(m, 'new') for m in case['specs'][:8]], threads=case.get('threads'))
+        return res
+
+
 class InstalledElsewhere(Stage):
     """where the tool happens to be installed must not matter: the working tree is copied (without .git) to scratch locations of
     different shapes - below a hidden directory as under ~/.local/share, a path with a blank, a path with dots - and the same
@@ -673,7 +716,7 @@ class C07(Prop):
     assumptions = ['protoxml.py (own ElementTree reader and literal evaluator) is the oracle',
                    'ties at equal maximal version: any one description is accepted, consistently per interface',
                    'arguments that carry no enum attribute in the XML (hand-tagged by the tool) are not judged']
-    stages = [Shipped(), Pipeline(), ArrayElements(), Synthetic(), InHistories(), InstalledElsewhere()]
+    stages = [Shipped(), Pipeline(), ArrayElements(), Synthetic(), InHistories(), InGdbHistories(), InstalledElsewhere()]
 
 
 PROP = C07()
